@@ -42,4 +42,42 @@ func factsC06() {
 		return true
 	})
 	addStrList("c06RawhostsIteration", it, "maps.go rebuildMatchFiles: how the hosts of a map are iterated")
+	// readConfigKeys (C06Ann): the annotations of ONE object under several prefixes.  The loop over the listed
+	// prefixes is OUTSIDE, the range over the annotation map INSIDE, and the only write to keys[key] is guarded by
+	// `!found` (the first writer keeps the key): with this shape the result cannot depend on Go's map order
+	// (Props/C06Ann.lean readConfigKeys_perm); a range over the map outside needs bookkeeping per key.
+	var loops, writes []string
+	var walk func(ss []ast.Stmt, depth int, cond string)
+	walk = func(ss []ast.Stmt, depth int, cond string) {
+		for _, st := range ss {
+			switch v := st.(type) {
+			case *ast.RangeStmt:
+				loops = append(loops, itoa(depth)+":range:"+c05Expr(v.X))
+				walk(v.Body.List, depth+1, cond)
+			case *ast.ForStmt:
+				loops = append(loops, itoa(depth)+":for")
+				walk(v.Body.List, depth+1, cond)
+			case *ast.BlockStmt:
+				walk(v.List, depth, cond)
+			case *ast.IfStmt:
+				walk(v.Body.List, depth, c05Expr(v.Cond))
+				if v.Else != nil {
+					walk([]ast.Stmt{v.Else}, depth, "else")
+				}
+			case *ast.AssignStmt:
+				for i, l := range v.Lhs {
+					if ix, ok := l.(*ast.IndexExpr); ok && c05Expr(ix.X) == "keys" {
+						rhs := "?"
+						if len(v.Rhs) == len(v.Lhs) {
+							rhs = c05Expr(v.Rhs[i])
+						}
+						writes = append(writes, c05Expr(l)+"="+rhs+" if "+cond)
+					}
+				}
+			}
+		}
+	}
+	walk(methodDecl("pkg/converters/ingress/ingress.go", "converter", "readConfigKeys").Body.List, 0, "-")
+	addStrList("c06ReadConfigKeysLoops", loops, "ingress.go readConfigKeys: loops with their nesting depth")
+	addStrList("c06ReadConfigKeysWrites", writes, "ingress.go readConfigKeys: writes to keys[...] with the guarding condition")
 }
